@@ -26,6 +26,7 @@ type Clause struct {
 type LoopSpec struct {
 	Invs     []*Clause
 	Modifies []*Clause // extra havoc locations
+	Steps    []*Clause // obligations at the back edge about one iteration (counters reset at the head)
 }
 
 type FuncSpec struct {
@@ -36,6 +37,7 @@ type FuncSpec struct {
 	Props   []string
 	Req     []*Clause
 	Ens     []*Clause
+	Checks  []*Clause // checked at every return like ensures, but never assumed by callers (path-local ghosts)
 	Mod     []*Clause // location expressions
 	ModSet  bool      // a modifies clause was given
 	ModAll  bool      // "modifies everything"
@@ -45,6 +47,9 @@ type FuncSpec struct {
 	PanicIf []*Clause
 	Loops   map[int]*LoopSpec
 	OnCall  map[string][]*Clause // caller-side obligations before calls with the given label
+	OnRef   map[string][]*Clause // obligations where a function value of the named function is created
+	GhostInit map[string][]*Clause // assumptions about a freshly allocated local (by source name)
+	LocalChanInv map[string]*Clause // channel invariant of a local channel variable (by source name)
 	EntryGhost [][2]*Clause    // ghost bindings established at function entry: loc = value
 	Sites   []string // callback role sites
 	Notes   []string
@@ -84,7 +89,7 @@ type Monitor struct {
 	Owner    string
 	Mutex    string
 	Protects []string
-	Inv      *Clause
+	Inv      *Clause // for a protected map: invariant over each entry (k, v)
 }
 
 type Spec struct {
@@ -418,6 +423,12 @@ func (s *Spec) load(path string, prefix string) error {
 			}
 			pi := strings.Index(rest, " protects ")
 			ii := strings.Index(rest, " invariant ")
+			if ii < 0 {
+				if j := strings.Index(rest, " mapinv "); j >= 0 {
+					rest = rest[:j] + " invariant " + rest[j+8:]
+					ii = j
+				}
+			}
 			if pi < 0 {
 				return fmt.Errorf("%s:%d: bad monitor", path, ln)
 			}
@@ -526,6 +537,12 @@ func (s *Spec) load(path string, prefix string) error {
 			if cur.Kind == "extern" || cur.Kind == "callback" || cur.Trusted {
 				s.Assumes = append(s.Assumes, fmt.Sprintf("%s %s: ensures %s", cur.Kind, cur.Name, c.Text))
 			}
+		case "checks":
+			c, err := mk()
+			if err != nil {
+				return err
+			}
+			cur.Checks = append(cur.Checks, c)
 		case "modifies":
 			cur.ModSet = true
 			if rest == "nothing" {
@@ -578,6 +595,40 @@ func (s *Spec) load(path string, prefix string) error {
 				lbl = strings.TrimSpace(lbl[len(m[0]):])
 			}
 			cur.OnCall[lbl] = append(cur.OnCall[lbl], c)
+		case "onref", "ghostinit", "chaninv-local":
+			i := strings.Index(rest, " : ")
+			if i < 0 {
+				return fmt.Errorf("%s:%d: bad %s", path, ln, base)
+			}
+			c, err := s.mkClause(strings.TrimSpace(rest[i+3:]), path, ln)
+			if err != nil {
+				return err
+			}
+			key := strings.TrimSpace(rest[:i])
+			if m := propTagRe.FindStringSubmatch(key); m != nil {
+				for _, p := range strings.Split(m[1], ",") {
+					c.Props = append(c.Props, strings.TrimSpace(p))
+				}
+				key = strings.TrimSpace(key[len(m[0]):])
+			}
+			switch base {
+			case "onref":
+				if cur.OnRef == nil {
+					cur.OnRef = map[string][]*Clause{}
+				}
+				cur.OnRef[key] = append(cur.OnRef[key], c)
+			case "ghostinit":
+				if cur.GhostInit == nil {
+					cur.GhostInit = map[string][]*Clause{}
+				}
+				cur.GhostInit[key] = append(cur.GhostInit[key], c)
+				s.Assumes = append(s.Assumes, fmt.Sprintf("ghostinit in %s: %s : %s", cur.Name, key, c.Text))
+			case "chaninv-local":
+				if cur.LocalChanInv == nil {
+					cur.LocalChanInv = map[string]*Clause{}
+				}
+				cur.LocalChanInv[key] = c
+			}
 		case "entry-ghost":
 			i := strings.Index(rest, " = ")
 			if i < 0 {
@@ -636,6 +687,12 @@ func (s *Spec) load(path string, prefix string) error {
 					}
 					ls.Modifies = append(ls.Modifies, c)
 				}
+			case "step":
+				c, err := s.mkClause(body, path, ln)
+				if err != nil {
+					return err
+				}
+				ls.Steps = append(ls.Steps, c)
 			case "decreases":
 				// documentation only (termination is not proved)
 			default:
